@@ -102,7 +102,7 @@ def shards(tier):
     files = _lena_files()
     for sp in sorted(files):
         out.append({"kind": "static", "sp": sp, "files": files[sp]})
-    group = 1 if tier == "thorough" else 4
+    group = 1
     for sp in ORDER:
         els = drivers.elements_of(sp)
         for i in range(0, len(els), group):
@@ -115,6 +115,14 @@ def shards(tier):
 # ------------------------------------------------------------------------------------------------
 
 _child_no = [0]
+_SITE = []
+
+
+def _site_packages():
+    if not _SITE:
+        import site
+        _SITE.extend(p for p in site.getsitepackages() if os.path.isdir(p))
+    return list(_SITE)
 
 
 def run_child(config, jobs, base):
@@ -128,13 +136,17 @@ def run_child(config, jobs, base):
     with open(req_path, "w") as f:
         json.dump(req, f)
     env = dict(os.environ)
-    env["PYTHONPATH"] = core.REPO
+    # -S: no site processing (about 0.15 s per interpreter here); the tree under test comes first on
+    # sys.path, the interpreter's own site-packages (jinja2) after it; byte code of this run is kept in
+    # the shard's scratch directory, never in the repository
+    env["PYTHONPATH"] = os.pathsep.join([core.REPO] + _site_packages())
+    env["PYTHONPYCACHEPREFIX"] = os.path.join(base, "pycache")
     env["PYTHONHASHSEED"] = "0"
-    env["PYTHONDONTWRITEBYTECODE"] = "1"
+    env.pop("PYTHONDONTWRITEBYTECODE", None)
     env["PYTHONWARNINGS"] = "ignore"
     for k in ("COVERAGE_PROCESS_START", "COVERAGE_PROCESS_CONFIG"):
         env.pop(k, None)
-    proc = subprocess.run([sys.executable, CHILD, req_path, resp_path], env=env, cwd=wd,
+    proc = subprocess.run([sys.executable, "-S", CHILD, req_path, resp_path], env=env, cwd=wd,
                           stdin=subprocess.DEVNULL, stdout=subprocess.DEVNULL, stderr=subprocess.PIPE)
     if not os.path.exists(resp_path):
         raise RuntimeError("C20 child produced no response (rc=%s): %s"
